@@ -488,7 +488,13 @@ func (ev *gEnv) callResult(call *ssa.Call, idx int) cT {
 			nres = tup.Len()
 		}
 		for _, ret := range rets {
-			rule := gRule{call: name, Conds: sub.condsOf(ret.Block())}
+			// a summary rule "conditions => results" needs conditions that are SUFFICIENT for taking this exit:
+			// one rule per acyclic path; if the paths cannot be enumerated the exit contributes no rule (fewer facts)
+			alts, exact := sub.exitAlts(ret.Block())
+			if !exact {
+				continue
+			}
+			rule := gRule{call: name}
 			for k := 0; k < nres && k < len(ret.Results); k++ {
 				kt := resultType(call, k)
 				rv := ret.Results[k]
@@ -513,10 +519,74 @@ func (ev *gEnv) callResult(call *ssa.Call, idx int) cT {
 					}
 				}
 			}
-			an.rules = append(an.rules, rule)
+			for _, alt := range alts {
+				an.rules = append(an.rules, gRule{call: name, Conds: alt.atoms, Then: rule.Then})
+			}
 		}
 	}
 	return res
+}
+
+// gAlt: one way of reaching an exit: the branch conditions along one acyclic path (atoms), and those of the last
+// branch on that path (final - the guard that sends control to this exit).
+type gAlt struct {
+	atoms []gAtom
+	final []gAtom
+}
+
+// exitAlts returns the exact reach condition of block b in a loop-free function as a list of alternatives, one per
+// acyclic path (`a || b` guards and multi-label case clauses give several). exact is false when there are more than
+// 24 paths; the caller then falls back to the dominating conditions, which are necessary but not sufficient.
+func (ev *gEnv) exitAlts(b *ssa.BasicBlock) ([]gAlt, bool) {
+	type path struct {
+		conds []Cond // from the exit backwards
+	}
+	const maxPaths = 24
+	over := false
+	var walk func(b *ssa.BasicBlock, depth int) []path
+	memo := map[*ssa.BasicBlock][]path{}
+	walk = func(b *ssa.BasicBlock, depth int) []path {
+		if p, ok := memo[b]; ok {
+			return p
+		}
+		if len(b.Preds) == 0 || depth > 200 {
+			return []path{{}}
+		}
+		var out []path
+		for _, p := range b.Preds {
+			var edge []Cond
+			if ifi, ok := p.Instrs[len(p.Instrs)-1].(*ssa.If); ok && p.Succs[0] != p.Succs[1] {
+				edge = []Cond{{ifi.Cond, p.Succs[0] == b}}
+			}
+			for _, pp := range walk(p, depth+1) {
+				np := path{conds: append(append([]Cond{}, edge...), pp.conds...)}
+				out = append(out, np)
+				if len(out) > maxPaths {
+					over = true
+					return out[:1]
+				}
+			}
+		}
+		memo[b] = out
+		return out
+	}
+	paths := walk(b, 0)
+	if over {
+		return []gAlt{{atoms: ev.condsOf(b)}}, false
+	}
+	var alts []gAlt
+	for _, p := range paths {
+		var a gAlt
+		for i, cd := range p.conds {
+			as := ev.atoms(cd)
+			if i == 0 {
+				a.final = as
+			}
+			a.atoms = append(a.atoms, as...)
+		}
+		alts = append(alts, a)
+	}
+	return alts, true
 }
 
 // condsOf: the dominating branch conditions of block b as atoms.
@@ -958,6 +1028,7 @@ func runR13_3(c *Ctx, r *R) {
 		type exit struct {
 			ret   *ssa.Return
 			conds []gAtom
+			final []gAtom
 			ok    bool
 			size  cT
 			typ   cT
@@ -968,19 +1039,20 @@ func runR13_3(c *Ctx, r *R) {
 				if !info.applies(ret.Pos(), k) {
 					continue
 				}
-				e := exit{ret: ret, conds: ev.condsOf(ret.Block())}
+				e := exit{ret: ret}
 				last := ret.Results[len(ret.Results)-1]
 				e.ok = isNilConst(last)
-				if !e.ok && !knownNonNil(last) {
-					// error operand neither nil nor a fresh error: propagated from a helper; it is an error exit
-					// exactly when the dominating conditions say so (err != nil is among conds)
-					e.ok = false
-				}
 				if sz >= 0 {
 					e.size = ev.term(ret.Results[sz])
 				}
 				e.typ = ev.term(ret.Results[0])
-				out = append(out, e)
+				// one entry per way of reaching the exit (exact), or one with the dominating conditions
+				alts, _ := ev.exitAlts(ret.Block())
+				for _, alt := range alts {
+					ea := e
+					ea.conds, ea.final = alt.atoms, alt.final
+					out = append(out, ea)
+				}
 			}
 			return out
 		}
@@ -1009,15 +1081,9 @@ func runR13_3(c *Ctx, r *R) {
 			okExit := false
 			for _, pe := range pExits {
 				g := fd.clone()
-				var final []gAtom
-				for i, cd := range pathConds(pe.ret.Block()) {
-					as := pEnv.atoms(cd)
-					if i == 0 {
-						final = as
-					}
-					for _, a := range as {
-						g.add(a)
-					}
+				final := pe.final
+				for _, a := range pe.conds {
+					g.add(a)
 				}
 				g.saturate()
 				if g.unsat() {
